@@ -23,6 +23,8 @@ from ..interp import Machine, Adt, Term, PyVec, Panic, ok, err
 from ..report import Unsupported
 
 LEVEL = "other"
+import os
+ONLY = os.environ.get("C10_ONLY", "")
 T = model.TERMINAL
 MS = model.MS
 
@@ -166,17 +168,8 @@ def replace_variant(v, variant, new_variant):
 
 
 def ext_hooks(F, m):
-    """models of the rust-bitcoin lock-time types: represented by their consensus u32; printing decimal"""
-    for p in list(F.fns) + []:
-        pass
-
-    def hook(path, fn):
-        m.hooks[path] = fn
-    hook("bitcoin::absolute::LockTime::from_consensus", lambda m_, a, c: a[0])
-    hook("bitcoin::Sequence::from_consensus", lambda m_, a, c: a[0])
-    hook("bitcoin::Sequence::is_relative_lock_time", lambda m_, a, c: (a[0] & (1 << 31)) == 0)
-    hook("bitcoin::Sequence::to_consensus_u32", lambda m_, a, c: a[0])
-    hook("bitcoin::Sequence::ZERO", lambda m_, a, c: 0)
+    """(the rust-bitcoin lock-time types are modelled in builtins by their consensus u32)"""
+    return m
 
 
 def round_trip(F, m, t):
@@ -269,6 +262,510 @@ def label_has_checked_raw(t):
     return bool(found) and all(found)
 
 
+# ---- R10.2 policies ---------------------------------------------------------------------------------------------
+
+CP = "policy::concrete::Policy"
+SP = "policy::semantic::Policy"
+
+
+def pol(adt, variant, *fields):
+    return Adt(adt, variant, {str(i): f for i, f in enumerate(fields)})
+
+
+def policy_leaves(F, adt):
+    a, r = ABS(F), REL(F)
+    return {
+        "Unsatisfiable": pol(adt, "Unsatisfiable"), "Trivial": pol(adt, "Trivial"), "Key": pol(adt, "Key", "KA"),
+        "After": pol(adt, "After", Adt(a, "AbsLockTime", {"0": 1000})),
+        "Older": pol(adt, "Older", Adt(r, "RelLockTime", {"0": 65535})),
+        "Sha256": pol(adt, "Sha256", "HS"), "Hash256": pol(adt, "Hash256", "HD"),
+        "Ripemd160": pol(adt, "Ripemd160", "HR"), "Hash160": pol(adt, "Hash160", "HH"),
+    }
+
+
+def policy_shapes(F, adt):
+    lv = policy_leaves(F, adt)
+
+    def P(i):
+        return pol(adt, "Key", "K%d" % i)
+    if adt == CP:
+        def And(xs):
+            return pol(adt, "And", PyVec(xs))
+
+        def Or(xs, w=None):
+            w = w or [1] * len(xs)
+            return pol(adt, "Or", PyVec([(wi, x) for wi, x in zip(w, xs)]))
+    else:
+        def And(xs):
+            return pol(adt, "Thresh", tm.thresh(len(xs), xs))
+
+        def Or(xs, w=None):
+            return pol(adt, "Thresh", tm.thresh(1, xs))
+
+    def Th(k, xs):
+        return pol(adt, "Thresh", tm.thresh(k, xs))
+    comb = {"and": And([P(8), P(9)]), "or": Or([P(8), P(9)], [3, 1]), "thresh": Th(2, [P(7), P(8), P(9)])}
+    if adt == CP:
+        comb["thresh1"] = Th(1, [P(7)])
+        comb["thresh_n"] = Th(3, [P(7), P(8), P(9)])
+        comb["thresh_or"] = Th(1, [P(7), P(8)])
+    else:
+        comb["and3"] = And([P(7), P(8), P(9)])
+        comb["or3"] = Or([P(7), P(8), P(9)])
+    classes = dict(lv)
+    classes.update(comb)
+    out = [("leaf:" + k, v) for k, v in classes.items()]
+    for cname, cv in classes.items():
+        for pos in range(2):
+            kids = [P(0), P(1)]
+            kids[pos] = cv
+            out.append(("and[%d]=%s" % (pos, cname), And(list(kids))))
+            out.append(("or[%d]=%s" % (pos, cname), Or(list(kids), [2, 5])))
+        for pos in range(3):
+            kids = [P(0), P(1), P(2)]
+            kids[pos] = cv
+            out.append(("thresh[%d]=%s" % (pos, cname), Th(2, kids)))
+    if adt == SP:
+        out.append(("thresh-1-of-1", Th(1, [P(0)])))
+    return out
+
+
+def pstrip(v):
+    if isinstance(v, Adt):
+        return (v.path.split("::")[-1], v.variant, tuple((k, pstrip(x)) for k, x in sorted(v.fields.items())))
+    if isinstance(v, PyVec):
+        return tuple(pstrip(x) for x in v.items)
+    if isinstance(v, tuple):
+        return tuple(pstrip(x) for x in v)
+    return v
+
+
+def check_policy_roundtrip(chk, F, adt, tag):
+    R = "R10.2"
+    chk.rule(R, "concrete and semantic policies: parse(print(p)) == p and printing is a fixed point, for every "
+                "variant and every child class in every position (n >= 2 sub-policies); evaluated from THIR")
+    m = tm.parser_machine(F)
+    ext_hooks(F, m)
+    chk.saw(tm.from_tree_path(F, adt))
+    n_ok = 0
+    for label, p in policy_shapes(F, adt):
+        key = "%s|%s" % (tag, label)
+        try:
+            out, r = tm.display(m, p)
+            s = "".join(map(str, out))
+            if not (isinstance(r, Adt) and r.variant == "Ok") or not all(isinstance(x, str) for x in out):
+                chk.fail(R, key, "printing failed: %r %r" % (r, out))
+                continue
+            res = tm.parse_with(F, m, adt, s)
+            if not (isinstance(res, Adt) and res.variant == "Ok"):
+                chk.fail(R, key, "printed text %r does not parse: %s" % (s, repr(res)[:160]),
+                         where="src/policy/%s.rs" % tag)
+                continue
+            back = res.fields["0"]
+            if pstrip(back) != pstrip(p):
+                chk.fail(R, key, "text %r parses back as %r" % (s, pstrip(back)), where="src/policy/%s.rs" % tag)
+                continue
+            out2, _ = tm.display(m, back)
+            if "".join(map(str, out2)) != s:
+                chk.fail(R, key, "printing is not a fixed point: %r then %r" % (s, "".join(map(str, out2))))
+                continue
+            chk.ok(R)
+            n_ok += 1
+            if label.startswith("leaf:"):
+                chk.sample("%s %s -> %s" % (tag, label, s))
+        except Unsupported as e:
+            chk.fail(R, "unanalysable:" + key, "unanalysable: %s" % e, where=e.where, kind="unanalysable")
+        except Panic as e:
+            chk.fail(R, key, "panic while printing / parsing: %s" % e)
+    chk.floor(R, "%s policy shapes" % tag, n_ok, 100)
+
+
+# ---- R10.3 / R10.4 / R10.5 descriptors and checksum -------------------------------------------------------------
+
+DESC = "descriptor::Descriptor"
+STRING = "std::string::String"
+
+
+def desc_machine(F):
+    """strict machine with Pk = String (keys are their text), real typing / context checks, bech32 engine model"""
+    m = Machine(F, strict=True)
+    m.text_keys = True
+    params = tm.install_bech32(F, m)
+    ext_hooks(F, m)
+    return m, params
+
+
+def desc_from_str(F, m, s):
+    fs = [it["path"] for i in F.impls if i["trait"] == "std::str::FromStr" and i["self_adt"] == DESC
+          for it in i["items"] if it["name"] == "from_str"]
+    if len(fs) != 1:
+        raise KeyError("FromStr for Descriptor")
+    return m.call_callee({"def": fs[0], "resolved": fs[0], "name": "from_str", "targs": [STRING]}, [s])
+
+
+def taptree_texts(maxleaves):
+    """all binary tree shapes with 1..maxleaves leaves, as brace expressions over leaf names"""
+    memo = {}
+
+    def shapes_(n):
+        if n in memo:
+            return memo[n]
+        if n == 1:
+            r = ["*"]
+        else:
+            r = []
+            for i in range(1, n):
+                for a in shapes_(i):
+                    for b in shapes_(n - i):
+                        r.append("{%s,%s}" % (a, b))
+        memo[n] = r
+        return r
+    out = []
+    for n in range(1, maxleaves + 1):
+        for sh in shapes_(n):
+            cnt = [0]
+
+            def leafname(_):
+                cnt[0] += 1
+                return "pk(L%d)" % cnt[0]
+            import re
+            out.append(re.sub(r"\*", leafname, sh))
+    return out
+
+
+def deep_taptree(depth, tail):
+    """a comb of `depth`-2 levels ending in `tail` (a brace expression of height 2)"""
+    s = tail
+    for i in range(depth - 2):
+        s = "{pk(D%d),%s}" % (i, s)
+    return s
+
+
+def descriptor_texts(tier):
+    inner = ["pk(K)", "and_v(v:pk(A),older(7))", "or_d(pk(A),and_v(v:pkh(B),after(500000001)))",
+             "thresh(2,pk(A),s:pk(B),sln:older(12))", "andor(pk(A),pk(B),and_v(v:pk(C),sha256(H)))"]
+    out = []
+    for ms in inner:
+        out += ["wsh(%s)" % ms, "sh(wsh(%s))" % ms, "sh(%s)" % ms]
+    out += ["pk(K)", "pkh(K)"]
+    out += ["multi(1,A,B)", "sh(multi(2,A,B,C))", "wsh(multi(2,A,B,C))", "pkh(K)", "wpkh(K)", "sh(wpkh(K))",
+            "sh(sortedmulti(1,A,B))", "wsh(sortedmulti(2,A,B,C))", "sh(wsh(sortedmulti(2,A,B,C)))", "tr(K)",
+            "tr(K,multi_a(2,A,B,C))", "tr(K,sortedmulti_a(1,A,B))"]
+    for t in taptree_texts(4 if tier == "quick" else 6):
+        out.append("tr(K,%s)" % t)
+    out.append("tr(K,{and_v(v:pk(A),older(7)),{pk(B),or_d(pk(C),pkh(D))}})")
+    return out
+
+
+def check_descriptor_roundtrip(chk, F):
+    import bip380
+    R = "R10.3"
+    chk.rule(R, "descriptors of every kind (bare, pkh, wpkh, sh, wsh, sh-wsh, sh-wpkh, sortedmulti, tr with every "
+                "tree shape up to N leaves and a depth-128 tree with several bottom pairs): Descriptor::from_str(text) "
+                "prints back as text#checksum with the BIP-380 checksum, that text parses to an equal object, "
+                "`{:#}` prints no checksum; evaluated from THIR with real typing and context checks")
+    m, params = desc_machine(F)
+    texts = descriptor_texts(chk.tier)
+    deep = []
+    if chk.tier != "quick":
+        deep = ["tr(K,%s)" % deep_taptree(128, "{{pk(A),pk(B)},{pk(C),pk(D)}}"),
+                "tr(K,{%s,%s})" % (deep_taptree(127, "{pk(A),pk(B)}"), deep_taptree(127, "{pk(C),pk(E)}"))]
+    n_ok = 0
+    for s in texts + deep:
+        key = s if len(s) < 80 else "deep-taptree-%d" % (deep.index(s) if s in deep else 0)
+        try:
+            r = desc_from_str(F, m, s)
+            if not (isinstance(r, Adt) and r.variant == "Ok"):
+                chk.fail(R, key, "canonical text does not parse: %s" % repr(r)[:200])
+                continue
+            d = r.fields["0"]
+            out, pr = tm.display(m, d)
+            txt = "".join(map(str, out))
+            want = s + "#" + bip380.descsum_create(s)
+            if txt != want:
+                chk.fail(R, key, "parsed descriptor prints as %r, expected %r" % (txt[:160], want[:160]),
+                         where="src/descriptor")
+                continue
+            r2 = desc_from_str(F, m, txt)
+            if not (isinstance(r2, Adt) and r2.variant == "Ok"):
+                chk.fail(R, key, "printed text (with checksum) does not parse: %s" % repr(r2)[:200])
+                continue
+            if pstrip(r2.fields["0"]) != pstrip(d):
+                chk.fail(R, key, "printed text parses to a different object", detail=[repr(pstrip(d))[:2000],
+                                                                                      repr(pstrip(r2.fields["0"]))[:2000]])
+                continue
+            out3, _ = tm.display(m, d, alternate=True)
+            if "".join(map(str, out3)) != s:
+                chk.fail(R, key, "alternate form prints %r, expected the text without checksum"
+                         % "".join(map(str, out3))[:160])
+                continue
+            chk.ok(R)
+            n_ok += 1
+            if len(s) < 60:
+                chk.sample("%s -> %s" % (s, txt))
+        except Unsupported as e:
+            chk.fail(R, "unanalysable:" + key, "unanalysable: %s" % e, where=e.where, kind="unanalysable")
+        except Panic as e:
+            chk.fail(R, key, "panic while parsing / printing %r: %s" % (s[:80], e))
+    chk.floor(R, "descriptor texts round-tripped", n_ok, 40)
+
+
+SUGAR = [  # (sugared, plain) -- Miniscript specification, "syntactic sugar" table
+    ("pk(K)", "c:pk_k(K)"), ("pkh(K)", "c:pk_h(K)"), ("t:sha256(H)", "and_v(sha256(H),1)"),
+    ("l:sha256(H)", "or_i(0,sha256(H))"), ("u:sha256(H)", "or_i(sha256(H),0)"),
+    ("and_n(sha256(H),sha256(G))", "andor(sha256(H),sha256(G),0)"),
+    ("vc:pk_k(K)", "v:pk(K)"), ("tvc:pk_h(K)", "and_v(v:pkh(K),1)"),
+]
+
+
+def check_sugar(chk, F):
+    R = "R10.1s"
+    chk.rule(R, "aliases and sugar never change meaning: the sugared and the plain text parse to equal fragments "
+                "(table from the Miniscript specification)")
+    m = tm.parser_machine(F)
+    ext_hooks(F, m)
+    for a, b in SUGAR:
+        ra, rb = tm.parse_miniscript(F, m, a), tm.parse_miniscript(F, m, b)
+        good = all(isinstance(x, Adt) and x.variant == "Ok" for x in (ra, rb)) \
+            and tm.strip(ra.fields["0"]) == tm.strip(rb.fields["0"])
+        chk.obligation(R, good, a, "%r and %r do not parse to the same fragment: %s / %s"
+                       % (a, b, repr(ra)[:120], repr(rb)[:120]))
+
+
+def check_checksum_verify(chk, F):
+    import bip380
+    R = "R10.4"
+    chk.rule(R, "verify_checksum accepts text#c exactly when c is the 8-character checksum of text: every single "
+                "substitution inside the checksum by any printable character, every single substitution in the payload, "
+                "wrong lengths and a missing checksum are rejected; text without `#` is returned unchanged")
+    m, params = desc_machine(F)
+    vc = F.fn("verify_checksum", file="descriptor/checksum.rs")
+    chk.saw(vc, F.fn("input_unchecked", file="descriptor/checksum.rs"), F.fn("checksum_chars", file="descriptor/checksum.rs"))
+    printable = [chr(i) for i in range(32, 127)]
+    bodies = ["wsh(pk(K))", "raw(deadbeef)"] if chk.tier == "quick" else ["wsh(pk(K))", "raw(deadbeef)", "tr(K,{pk(A),pk(B)})"]
+
+    def verdict(s):
+        r = m.call_path(vc, [s])
+        return r
+    n = 0
+    for body in bodies:
+        cs = bip380.descsum_create(body)
+        good = body + "#" + cs
+        r = verdict(good)
+        chk.obligation(R, isinstance(r, Adt) and r.variant == "Ok" and r.fields["0"] == body, "accept|" + body,
+                       "the BIP-380 checksum %r is not accepted: %r" % (good, r))
+        r = verdict(body)
+        chk.obligation(R, isinstance(r, Adt) and r.variant == "Ok" and r.fields["0"] == body, "plain|" + body,
+                       "text without checksum is not returned unchanged: %r" % (r,))
+        for bad in (body + "#", body + "#" + cs[:7], body + "#" + cs + "q", body + "#" + cs + "#" + cs[:3]):
+            r = verdict(bad)
+            chk.obligation(R, isinstance(r, Adt) and r.variant == "Err", "length|" + body,
+                           "malformed checksum accepted: %r" % bad)
+        # substitutions inside the checksum: all 8 positions x all printable characters
+        accepted = []
+        for pos in range(8):
+            for ch in printable:
+                if ch == cs[pos] or ch == "#":
+                    continue
+                s = body + "#" + cs[:pos] + ch + cs[pos + 1:]
+                r = verdict(s)
+                n += 1
+                if not (isinstance(r, Adt) and r.variant == "Err"):
+                    accepted.append(s)
+        chk.obligation(R, not accepted, "checksum-substitution|" + body,
+                       "checksum with a substituted character accepted: %r" % accepted[:4],
+                       where="src/descriptor/checksum.rs")
+        # substitutions in the payload
+        accepted = []
+        alphabet = printable if chk.tier != "quick" else list("0123456789()[],'/*abcdefgh@:$%{}") + ["K", "P", "~", " "]
+        for pos in range(len(body)):
+            for ch in alphabet:
+                if ch == body[pos] or ch == "#":
+                    continue
+                s = body[:pos] + ch + body[pos + 1:] + "#" + cs
+                r = verdict(s)
+                n += 1
+                if not (isinstance(r, Adt) and r.variant == "Err"):
+                    accepted.append(s)
+        chk.obligation(R, not accepted, "payload-substitution|" + body,
+                       "payload with a substituted character accepted: %r" % accepted[:4],
+                       where="src/descriptor/checksum.rs")
+    chk.extra["R10.4_strings_evaluated"] = n
+
+
+def check_checksum_constants(chk, F):
+    import bip380
+    from .. import constval
+    R = "R10.5"
+    chk.rule(R, "checksum constants (generator, length, target residue, input alphabet and its inverse CHAR_MAP) equal "
+                "BIP-380; the character -> symbol expansion (low 5 bits per character, one class symbol per 3 "
+                "characters, partial last group) equals descsum_expand for every character in every group position "
+                "and every group length; computed checksums equal descsum_create")
+    params = tm.checksum_params(F)
+    chk.obligation(R, params["GENERATOR_SH"] == bip380.GENERATOR, "GENERATOR_SH",
+                   "generator %r differs from BIP-380" % (params["GENERATOR_SH"],), where="src/descriptor/checksum.rs")
+    chk.obligation(R, params["CHECKSUM_LENGTH"] == bip380.CHECKSUM_LENGTH, "CHECKSUM_LENGTH", "checksum length differs")
+    chk.obligation(R, params["TARGET_RESIDUE"] == bip380.TARGET_RESIDUE, "TARGET_RESIDUE", "target residue differs")
+    cl = F.consts.get("descriptor::checksum::CHECKSUM_LENGTH")
+    chk.obligation(R, cl is not None and constval.parse(cl["value"]) == 8, "CHECKSUM_LENGTH const", "module constant differs")
+    ic = [k for k in F.consts if k.endswith("INPUT_CHARSET")]
+    chk.obligation(R, len(ic) >= 1, "INPUT_CHARSET", "INPUT_CHARSET constant not found")
+    for k in ic:
+        v = constval.parse(F.consts[k]["value"])
+        chk.obligation(R, v == bip380.INPUT_CHARSET, k, "input alphabet %r differs from BIP-380" % (v,))
+    cm = constval.parse(F.consts["descriptor::checksum::CHAR_MAP"]["value"])
+    cm = list(cm.items) if isinstance(cm, PyVec) else list(cm)
+    want = [bip380.INPUT_CHARSET.index(chr(32 + i)) for i in range(95)]
+    chk.obligation(R, cm == want, "CHAR_MAP", "CHAR_MAP is not the inverse of the BIP-380 input alphabet",
+                   where="src/descriptor/checksum.rs")
+    # transducer: evaluate Engine::input + checksum_chars on strings covering every character in every position
+    m, _ = desc_machine(F)
+    new = F.fn("new", file="descriptor/checksum.rs", container="Engine")
+    inp = F.fn("input", file="descriptor/checksum.rs", container="Engine")
+    cc = F.fn("checksum_chars", file="descriptor/checksum.rs")
+    strings = []
+    cs = bip380.INPUT_CHARSET
+    pads = [cs[0], cs[40], cs[70]]      # one character of each class
+    for i, ch in enumerate(cs):
+        for pos in range(3):
+            g = [pads[(i + 1) % 3], pads[(i + 2) % 3], pads[i % 3]]
+            g[pos] = ch
+            strings.append("".join(g))
+    for a in pads:                          # all 27 class combinations, and partial groups
+        strings.append(a)
+        for b in pads:
+            strings.append(a + b)
+            for c in pads:
+                strings.append(a + b + c)
+                strings.append("xyz" + a + b + c + a)
+    strings += ["", cs, cs[::-1], "wsh(pk(K))"]
+    bad = []
+    for s in strings:
+        eng = m.call_path(new, [])
+        r = m.call_path(inp, [eng, s])
+        chars = m.call_path(cc, [eng])
+        got = "".join(chars.items)
+        e = m.bech32_engines[-1]
+        want_syms = bip380.descsum_expand(s)
+        fed = e.fed[:len(want_syms)]
+        if fed != want_syms or got != bip380.descsum_create(s):
+            bad.append((s, got, bip380.descsum_create(s)))
+    chk.obligation(R, not bad, "transducer", "symbol expansion / checksum differs from BIP-380 on %r" % (bad[:3],),
+                   where="src/descriptor/checksum.rs")
+    chk.extra["R10.5_strings"] = len(strings)
+    chk.floor(R, "transducer strings", len(strings), 300)
+
+
+# ---- R10.6 taproot tree builder / brace printer -----------------------------------------------------------------
+
+def brace_events(text):
+    """pre-order events of a brace expression over single-token leaves: ('{',) | ('leaf', name);
+    and the specification depths of the leaves"""
+    events, depths = [], []
+    depth = 0
+    tok = ""
+    for ch in text:
+        if ch == "{":
+            events.append(("{",))
+            depth += 1
+        elif ch in ",}":
+            if tok:
+                events.append(("leaf", tok))
+                depths.append((depth, tok))
+                tok = ""
+            if ch == "}":
+                depth -= 1
+        else:
+            tok += ch
+    if tok:
+        events.append(("leaf", tok))
+        depths.append((depth, tok))
+    return events, depths
+
+
+def brace_shapes(maxleaves):
+    out = []
+    for t in taptree_texts(maxleaves):
+        import re
+        out.append(re.sub(r"pk\((L\d+)\)", r"\1", t))
+    return out
+
+
+def comb(depth, tail, side="right"):
+    s = tail
+    for i in range(depth):
+        s = "{X%d,%s}" % (i, s) if side == "right" else "{%s,X%d}" % (s, i)
+    return s
+
+
+def check_taptree_builder(chk, F):
+    R = "R10.6"
+    chk.rule(R, "TapTreeBuilder (push_inner_node on `{`, push_leaf on a leaf, in pre-order) records every leaf at its "
+                "brace depth, for every tree shape up to N leaves and for combs reaching depth 127/128 with one, two and "
+                "three bottom pairs on either side; depth 129 is refused; TapTree Display prints the same braces back")
+    m = Machine(F, strict=True)
+    m.text_keys = True
+    new = F.fn("new", file="tr/taptree.rs", container="TapTreeBuilder")
+    pin = F.fn("push_inner_node", file="tr/taptree.rs")
+    pl = F.fn("push_leaf", file="tr/taptree.rs")
+    fin = F.fn("finalize", file="tr/taptree.rs", container="TapTreeBuilder")
+    chk.saw(new, pin, pl, fin, F.fn("fmt_helper", file="tr/taptree.rs"))
+    ARC = "std::sync::Arc<miniscript::private::Miniscript<std::string::String, miniscript::context::Tap>>"
+    texts = brace_shapes(5 if chk.tier == "quick" else 7)
+    P2 = "{A,B}"
+    P4 = "{{A,B},{C,D}}"
+    P6 = "{{A,B},{{C,D},E}}"
+    texts += [comb(126, P2), comb(127, P2), comb(126, P4), comb(126, P2, "left"), comb(127, P2, "left"),
+              comb(126, P4, "left"), comb(125, P6), comb(125, "{%s,%s}" % (P4, P4)),
+              "{%s,%s}" % (comb(126, P2), comb(126, "{C,E}", "left")),
+              "{%s,%s}" % (comb(125, P4), comb(125, "{{E,F},{G,H}}", "left")),
+              comb(100, "{%s,%s}" % (comb(26, P2), comb(25, P4, "left")))]
+    n_ok = 0
+    for text in texts:
+        key = text if len(text) < 60 else "deep:%d:%s" % (len(text), text[-28:])
+        events, want = brace_events(text)
+        try:
+            b = m.call_path(new, [])
+            failed = None
+            for ev in events:
+                if ev[0] == "{":
+                    r = m.call_path(pin, [b])
+                    if not (isinstance(r, Adt) and r.variant == "Ok"):
+                        failed = "push_inner_node refused at a legal depth: %r" % (r,)
+                        break
+                else:
+                    m.call_callee({"def": pl, "name": "push_leaf", "targs": [STRING, ARC]}, [b, ev[1]])
+            if failed:
+                chk.fail(R, key, failed, where="src/descriptor/tr/taptree.rs")
+                continue
+            tree = m.call_path(fin, [b])
+            got = [(d, leaf) for (d, leaf) in tree.fields["depths_leaves"].items]
+            if got != want:
+                diff = [(i, g, w) for i, (g, w) in enumerate(zip(got, want)) if g != w][:3]
+                chk.fail(R, key, "leaf depths differ from the brace structure: (index, got, want) %r" % (diff,),
+                         where="src/descriptor/tr/taptree.rs")
+                continue
+            out, r = tm.display(m, tree)
+            txt = "".join(map(str, out))
+            if txt != text:
+                chk.fail(R, key, "TapTree prints %r..., expected the same braces" % txt[:80],
+                         where="src/descriptor/tr/taptree.rs")
+                continue
+            chk.ok(R)
+            n_ok += 1
+        except Unsupported as e:
+            chk.fail(R, "unanalysable:" + key, "unanalysable: %s" % e, where=e.where, kind="unanalysable")
+        except Panic as e:
+            chk.fail(R, key, "panic in the builder / printer: %s" % e, where="src/descriptor/tr/taptree.rs")
+    # depth 129 must be refused
+    b = m.call_path(new, [])
+    r = None
+    for i in range(129):
+        r = m.call_path(pin, [b])
+    chk.obligation(R, isinstance(r, Adt) and r.variant == "Err", "depth-129", "a 129th nesting level is accepted: %r" % (r,))
+    chk.floor(R, "brace shapes", n_ok, 30)
+
+
 def run(chk):
     F = chk.facts()
     chk.explanation = __doc__
@@ -276,4 +773,21 @@ def run(chk):
                    "generic tree iterators of src/iter/tree.rs (modelled; verbose_pre_order_iter evaluated from source)",
                    "rust-bitcoin lock-time Display prints the consensus integer",
                    "key / hash types: Display and FromStr are inverse (generic parameter)"]
-    chk.guard("R10.1", "miniscript", check_miniscript_roundtrip, chk, F)
+    chk.guard("R10.1", "miniscript", check_miniscript_roundtrip, chk, F) if not ONLY or "1" in ONLY else None
+    if not ONLY or "2" in ONLY:
+        chk.guard("R10.2", "concrete", check_policy_roundtrip, chk, F, CP, "concrete")
+    if not ONLY or "2" in ONLY:
+        chk.guard("R10.2", "semantic", check_policy_roundtrip, chk, F, SP, "semantic")
+    tm.sys_path_spec()
+    import bip380
+    bip380.selftest()
+    if not ONLY or "s" in ONLY:
+        chk.guard("R10.1s", "sugar", check_sugar, chk, F)
+    if not ONLY or "3" in ONLY:
+        chk.guard("R10.3", "descriptors", check_descriptor_roundtrip, chk, F)
+    if not ONLY or "4" in ONLY:
+        chk.guard("R10.4", "verify_checksum", check_checksum_verify, chk, F)
+    if not ONLY or "5" in ONLY:
+        chk.guard("R10.5", "constants", check_checksum_constants, chk, F)
+    if not ONLY or "6" in ONLY:
+        chk.guard("R10.6", "taptree", check_taptree_builder, chk, F)
